@@ -247,7 +247,7 @@ func kBFS(cfg *KConfig, prop string, workers int, deadline time.Time) *KResult {
 					if v.Prop != prop && v.Prop != "*" {
 						continue
 					}
-					sig := cfg.Name + ":" + v.Sig
+					sig := v.Sig + "@" + cfg.Name
 					if sigSeen[sig] {
 						res.Counters["violating-transitions"]++
 						continue
